@@ -81,6 +81,15 @@ def load_known():
 
 # ------------------------------------------------------------------ the check object
 
+class SafeRandom(random.Random):
+    """the checks' only PRNG; `sample` never asks for more than the population holds (a data-dependent pool that came
+    out smaller than the cap under some seed must not crash the check)"""
+
+    def sample(self, population, k, **kw):
+        population = list(population) if not isinstance(population, (list, tuple, range, str)) else population
+        return super().sample(population, min(k, len(population)), **kw)
+
+
 class Check:
     """Collects coverage, violations and evidence for one run of one property."""
 
@@ -89,7 +98,7 @@ class Check:
         self.tier = tier
         self.seed = seed
         self.level = level
-        self.rng = random.Random(seed)
+        self.rng = SafeRandom(seed)
         self.t0 = time.time()
         self.violations = []          # (class_key, replay_path, text, no_input)
         self.known_hits = {}          # finding key -> text
